@@ -38,6 +38,48 @@ func blockStrings(b *hg.Block, f func(string)) {
 	}
 }
 
+func blockDiff(a, b *hg.Block) string {
+	if d := itxsDiff("Block.Body", a.Body.InternalTransactions, b.Body.InternalTransactions); d != "" {
+		return d
+	}
+	ra, rb := a.Body.InternalTransactionReceipts, b.Body.InternalTransactionReceipts
+	if len(ra) == len(rb) {
+		for i := range ra {
+			if d := peerDiff(fmt.Sprintf("Block.Body.InternalTransactionReceipts[%d].InternalTransaction.Body.Peer", i),
+				&ra[i].InternalTransaction.Body.Peer, &rb[i].InternalTransaction.Body.Peer); d != "" {
+				return d
+			}
+		}
+	}
+	ka, kb := []string{}, []string{}
+	for k := range a.Signatures {
+		ka = append(ka, k)
+	}
+	for k := range b.Signatures {
+		kb = append(kb, k)
+	}
+	return keySetDiff("Block.Signatures", ka, kb)
+}
+
+func frameDiff(a, b *hg.Frame) string {
+	if d := peerListDiff("Frame.Peers", a.Peers, b.Peers); d != "" {
+		return d
+	}
+	for r, ps := range a.PeerSets {
+		if d := peerListDiff(fmt.Sprintf("Frame.PeerSets[%d]", r), ps, b.PeerSets[r]); d != "" {
+			return d
+		}
+	}
+	ka, kb := []string{}, []string{}
+	for k := range a.Roots {
+		ka = append(ka, k)
+	}
+	for k := range b.Roots {
+		kb = append(kb, k)
+	}
+	return keySetDiff("Frame.Roots", ka, kb)
+}
+
 // freshBlockHex recomputes the block hash without the private cache
 func freshBlockHex(b *hg.Block) string {
 	m, err := b.Marshal()
@@ -98,6 +140,7 @@ func (w *world) blockCase(path string, b *hg.Block, sigOrder []string, get func(
 		if k0 != k1 || n0 != n1 {
 			violation("signature-invalid-after-block-"+path, fmt.Sprintf("%s valid %d/%d -> %d/%d", tag, k0, n0, k1, n1))
 		}
+		contentChanged("block-"+path, tag, blockDiff(b, got))
 		if !reflect.DeepEqual(b.Body, got.Body) || !reflect.DeepEqual(b.Signatures, got.Signatures) {
 			violation("payload-changed", "block-"+path+" "+tag)
 		}
@@ -268,6 +311,7 @@ func (w *world) frameResult(path string, l *links, store *hg.BadgerStore, f *hg.
 		if !same {
 			violation("hash-changed-through-frame-"+path, tag)
 		}
+		contentChanged("frame-"+path, tag, frameDiff(f, got))
 		a, b := frameEvents(f), frameEvents(got)
 		if len(a) != len(b) {
 			violation("payload-changed", "frame-"+path+" events "+tag)
@@ -286,6 +330,7 @@ func (w *world) frameResult(path string, l *links, store *hg.BadgerStore, f *hg.
 				if safeVerify(a[i].Core) != safeVerify(b[i].Core) {
 					violation("signature-invalid-after-frame-"+path, tag)
 				}
+				contentChanged("frame-"+path, tag, eventDiff(a[i].Core, b[i].Core))
 				if !payloadSame(a[i].Core, b[i].Core) || a[i].Round != b[i].Round || a[i].LamportTimestamp != b[i].LamportTimestamp || a[i].Witness != b[i].Witness {
 					violation("payload-changed", "frame-"+path+" "+tag)
 				}
@@ -621,15 +666,17 @@ func (w *world) peerList(rng *rand.Rand, shape int, strShape int) []*peers.Peer 
 	case 1:
 		return []*peers.Peer{}
 	case 2:
-		return []*peers.Peer{w.peer(rng.Intn(nKeys), mon())}
+		k := rng.Intn(nKeys)
+		return []*peers.Peer{w.anyPeer(rng, k, fmt.Sprintf("addr%d:1337", k), mon())}
 	case 3:
 		l := []*peers.Peer{}
 		for i, n := 0, 2+rng.Intn(5); i < n; i++ {
-			l = append(l, w.peer(rng.Intn(nKeys), mon()))
+			k := rng.Intn(nKeys)
+			l = append(l, w.anyPeer(rng, k, fmt.Sprintf("addr%d:1337", k), mon()))
 		}
 		return l
 	default:
-		return []*peers.Peer{w.peer(0, mon()), nil}
+		return []*peers.Peer{w.anyPeer(rng, 0, "addr0:1337", mon()), nil}
 	}
 }
 
@@ -668,7 +715,7 @@ func (w *world) synFrame(rng *rand.Rand, sp, sr, srr, se, sps int, strShape int,
 		}
 		perm := rng.Perm(nKeys)
 		for i := 0; i < n; i++ {
-			k := w.phex[perm[i]]
+			k := w.keySpelling(rng, perm[i]) // a Root key under some spelling of the participant's key
 			shape := srr
 			if i > 0 {
 				shape = rng.Intn(4)
@@ -752,7 +799,14 @@ func (w *world) synBlock(rng *rand.Rand, i int) (*hg.Block, []string, string) {
 			sig, _ := b.Sign(w.privs[perm[j]])
 			w.a.G(sig.Signature)
 			b.SetSignature(sig)
-			order = append(order, sig.ValidatorHex())
+			k := sig.ValidatorHex()
+			if alt := w.keySpelling(rng, perm[j]); alt != k {
+				// the same signature filed under another spelling of the validator's key (a JSON object key)
+				delete(b.Signatures, k)
+				b.Signatures[alt] = sig.Signature
+				k = alt
+			}
+			order = append(order, k)
 		}
 		if rng.Intn(4) == 0 { // a signature that does not verify, under an arbitrary key string
 			k := w.strOf(1 + rng.Intn(7))
